@@ -95,13 +95,27 @@ class UpdateReferences:
             lst[idx] = None
             found = True
             continue
-          if hasattr(oldref, "is_complement") and \
-                            oldref.is_complement(newref):
+          if self.__is_replaced_by_complement(oldref, newref):
             elem.orient = gfapy.invert(elem.orient)
           elem.line = newref
           found = True
     if newref is None and found:
       lst[:] = [e for e in lst if e is not None]
+
+  @staticmethod
+  def __is_replaced_by_complement(oldref, newref):
+    if not hasattr(oldref, "is_complement"):
+      return False
+    if oldref.is_complement(newref):
+      return True
+    if gfapy.is_placeholder(oldref.overlap) or \
+       gfapy.is_placeholder(newref.overlap):
+      # a virtual link created by a path has no overlap: compare the ends
+      return (oldref.from_end == newref.to_end and
+              oldref.to_end == newref.from_end and
+              not (oldref.from_end == newref.from_end and
+                   oldref.to_end == newref.to_end))
+    return False
 
   def __update_field_references(self, oldref, newref, possible_fieldnames):
     for fn in possible_fieldnames:
